@@ -77,6 +77,44 @@ def templates(rng, k):
              '@update', 'def A():', '  s.x @= s.y | s.d', '@update', 'def B():', '  s.y @= s.x & s.m', '@update', 'def Z():', '  s.o @= s.y ^ s.d']
   return 'two-groups', mk(n, cyc), None, I, 'fixed'
 
+def random_cyclic(rng, k):
+  """a random strongly-connected group of 2..5 blocks over 3..7 signals (names chosen so that some are prefixes of
+  others), each signal written by exactly one block, no block reads what it writes; mostly monotone (| &) logic so
+  that iteration usually settles; expectation 'either': returning is allowed only with a fixed point"""
+  w = rng.choice([1, 2, 4, 8])
+  base = rng.choice(['x', 'out', 'a', 'v'])
+  pool = [base, base + '1', base + '_val', base + 'a', 'y', 'y2', 'q', 'qq']
+  rng.shuffle(pool)
+  nb = rng.randrange(2, 6)
+  nsig = rng.randrange(max(nb, 3), min(len(pool), nb + 3) + 1)
+  sigs = pool[:nsig]
+  owner = {}
+  for j, sname in enumerate(sigs): owner[sname] = j % nb if j < nb else rng.randrange(nb)
+  L = [f's.i = InPort( {w} )', f's.m = InPort( {w} )'] + [f's.{n_} = Wire( {w} )' for n_ in sigs] + [f's.o = OutPort( {w} )']
+  mono = rng.random() < 0.8
+  ops = ['|', '&', '|', '&'] if mono else ['|', '&', '^', '+']
+  blocks = []
+  for b in range(nb):
+    mine = [n_ for n_ in sigs if owner[n_] == b]
+    prev = [n_ for n_ in sigs if owner[n_] == (b - 1) % nb]
+    others = [n_ for n_ in sigs if owner[n_] != b]
+    body = []
+    for t_i, t in enumerate(mine):
+      srcs = [rng.choice(prev)] if (t_i == 0 and prev and prev[0] not in mine) else []
+      srcs += rng.sample(others, min(len(others), rng.randrange(0, 3)))
+      srcs = [f's.{x}' for x in dict.fromkeys(srcs)] + rng.sample(['s.i', 's.m'], rng.randrange(1, 3))
+      e = srcs[0]
+      for x in srcs[1:]: e = f'({e} {rng.choice(ops)} {x})'
+      if not mono and rng.random() < 0.2: e = f'(~{e})'
+      body.append(f'  s.{t} @= {e}')
+    blocks.append((f'g{b}', body))
+  rng.shuffle(blocks)
+  for nme, body in blocks: L += ['@update', f'def {nme}():'] + body
+  obs = rng.choice(sigs)
+  L += ['@update', 'def zobs():', f'  s.o @= s.{obs}']
+  I = [('i', ('bits', w)), ('m', ('bits', w))]
+  return 'random-cyclic' + ('-monotone' if mono else ''), mk(f'K{k}', L), None, I, 'either'
+
 class Hang(Exception): pass
 def _alarm(*a): raise Hang()
 
@@ -121,12 +159,13 @@ def run(ctx):
   from pymtl3.dsl.errors import UpblkCyclicError
   quick = ctx.tier == 'quick'
   rng = ctx.rng
-  n = 72 if quick else 900
+  ntempl = 54 if quick else 540
+  n = ntempl + (150 if quick else 2500)
   cycles = 6 if quick else 16
   coq_cases, coq_meta = [], []
   _signal.signal(_signal.SIGALRM, _alarm)
   for k in range(n):
-    kind, csrc, asrc, I, expect = templates(random.Random(rng.randrange(1 << 30)), k)
+    kind, csrc, asrc, I, expect = templates(random.Random(rng.randrange(1 << 30)), k) if k < ntempl else random_cyclic(random.Random(rng.randrange(1 << 30)), k)
     class G: pass
     g = G(); g.inputs = I; g.name = f'K{k}'
     try:
@@ -148,6 +187,8 @@ def run(ctx):
       try:
         top = sc.build(cls, sch, seed=0)
       except UpblkCyclicError as e:
+        if expect == 'either':
+          ctx.count((k, sch, 'sched-error'), True, cls=f'{kind}:not-a-cycle-or-rejected'); continue
         if expect != 'sched-error':
           ctx.violation(f'C11:sched-reject:{kind}:{sch}', f'{sch} refuses a cyclic design it should iterate ({kind}): {str(e)[:150]}', {'design_source': csrc, 'scheduler': sch})
         ctx.count((k, sch, 'sched-error'), True, cls='once-in-cycle-rejected')
